@@ -17,6 +17,11 @@ structure InvB (s : State) : Prop where
   got_ok : ∀ (h : Nat) (e : Entry) (id p : Nat), s.entries[h]? = some e → e.got = some (id, p) →
       e.reqId = id ∧ 0 < id ∧ (id, p) ∈ s.respLog
   wire_ok : ∀ (id q : Nat), (id, q) ∈ s.wireLog → 0 < id ∧ ∃ (h : Nat) (e : Entry), s.entries[h]? = some e ∧ e.reqId = id ∧ e.payload = q
+  /-- the request appended to `Requests` together with an id is the request of that id's entry -/
+  item_req : ∀ it ∈ s.built, ∀ (e : Entry), s.entries[it.h]? = some e → e.payload = it.req
+  /-- PAIRING of the outgoing batch: `Requests` is parallel to `RequestIds`/`entries` — the i-th request is the
+      request of the i-th id -/
+  paired : s.breqs = s.built.map (·.req)
 
 theorem map_get {es : List Entry} {g : Nat → Entry → Entry} {es' : List Entry}
     (hent : ∀ i : Nat, es'[i]? = (es[i]?).map (g i)) {i : Nat} {e' : Entry} (h : es'[i]? = some e') :
@@ -36,8 +41,10 @@ theorem InvB.neutral {s s' : State} (hB : InvB s) (g : Nat → Entry → Entry)
     (htab : ∀ sl ∈ s'.table, sl ∈ s.table)
     (hid : s.idAlloc ≤ s'.idAlloc)
     (hresp : ∀ x ∈ s.respLog, x ∈ s'.respLog)
-    (hwire : s'.wireLog = s.wireLog) : InvB s' := by
-  refine ⟨?_, hpos, ?_, ?_, ?_, ?_, ?_, ?_⟩
+    (hwire : s'.wireLog = s.wireLog)
+    (hreq : ∀ it ∈ s'.built, ∀ (e : Entry), s.entries[it.h]? = some e → e.payload = it.req)
+    (hpair : s'.breqs = s'.built.map (·.req)) : InvB s' := by
+  refine ⟨?_, hpos, ?_, ?_, ?_, ?_, ?_, ?_, ?_, hpair⟩
   · intro h hh e' he'
     obtain ⟨e, he, rfl⟩ := map_get hent he'
     rw [(hg h e).1]; exact hB.unsent0 h (hun h hh) e he
@@ -70,13 +77,17 @@ theorem InvB.neutral {s s' : State} (hB : InvB s) (g : Nat → Entry → Entry)
     refine ⟨hp, h, g h e, by rw [hent h, he]; rfl, ?_, ?_⟩
     · rw [(hg h e).1]; exact h1
     · rw [(hg h e).2.2]; exact h2
+  · intro it hit e' he'
+    obtain ⟨e, he, rfl⟩ := map_get hent he'
+    rw [(hg _ e).2.2]; exact hreq it hit e he
 
 /-- nothing but queues/table shrinking, logs growing -/
 theorem InvB.shrink {s s' : State} (hB : InvB s) (hent : s'.entries = s.entries)
-    (hun : ∀ h ∈ unsent s', h ∈ unsent s) (hb : ∀ it ∈ s'.built, it ∈ s.built) (htab : ∀ sl ∈ s'.table, sl ∈ s.table)
+    (hun : ∀ h ∈ unsent s', h ∈ unsent s) (hb : s'.built = s.built) (hq : s'.breqs = s.breqs) (htab : ∀ sl ∈ s'.table, sl ∈ s.table)
     (hid : s'.idAlloc = s.idAlloc) (hresp : ∀ x ∈ s.respLog, x ∈ s'.respLog) (hwire : s'.wireLog = s.wireLog) : InvB s' :=
   hB.neutral (fun _ e => e) (by intro i; rw [hent]; simp) (fun _ _ => ⟨rfl, rfl, rfl⟩) hun
-    (fun it h => hB.item_pos it (hb it h)) (fun it h => hB.item_new it (hb it h)) htab (by rw [hid]; exact Nat.le_refl _) hresp hwire
+    (by rw [hb]; exact hB.item_pos) (by rw [hb]; exact hB.item_new) htab (by rw [hid]; exact Nat.le_refl _) hresp hwire
+    (by rw [hb]; exact hB.item_req) (by rw [hb, hq]; exact hB.paired)
 
 theorem abandon_neutral (e : Entry) (err : Err) :
     (e.abandon err).reqId = e.reqId ∧ (e.abandon err).got = e.got ∧ (e.abandon err).payload = e.payload := by
@@ -91,11 +102,12 @@ theorem wake_neutral (e : Entry) : e.wake.reqId = e.reqId ∧ e.wake.got = e.got
 theorem InvB.updAt {s s' : State} (hB : InvB s) (h : Nat) (f : Entry → Entry)
     (hf : ∀ e, (f e).reqId = e.reqId ∧ (f e).got = e.got ∧ (f e).payload = e.payload)
     (hent : s'.entries = CGV.BatchMux.updAt s.entries h f)
-    (hun : unsent s' = unsent s) (hb : s'.built = s.built) (ht : s'.table = s.table) (hid : s'.idAlloc = s.idAlloc)
+    (hun : unsent s' = unsent s) (hb : s'.built = s.built) (hq : s'.breqs = s.breqs) (ht : s'.table = s.table) (hid : s'.idAlloc = s.idAlloc)
     (hr : s'.respLog = s.respLog) (hw : s'.wireLog = s.wireLog) : InvB s' := by
   refine hB.neutral (fun i e => if i = h then f e else e) ?_ ?_ (by rw [hun]; exact fun _ h => h)
     (by rw [hb]; exact hB.item_pos) (by rw [hb]; exact hB.item_new) (by rw [ht]; exact fun _ h => h)
     (by rw [hid]; exact Nat.le_refl _) (by rw [hr]; exact fun _ h => h) hw
+    (by rw [hb]; exact hB.item_req) (by rw [hb, hq]; exact hB.paired)
   · intro i; rw [hent, getElem?_updAt]
   · intro i e; by_cases hh : i = h
     · simp [hh]; exact hf e
@@ -104,11 +116,12 @@ theorem InvB.updAt {s s' : State} (hB : InvB s) (h : Nat) (f : Entry → Entry)
 theorem InvB.updIn {s s' : State} (hB : InvB s) (hs : List Nat) (f : Entry → Entry)
     (hf : ∀ e, (f e).reqId = e.reqId ∧ (f e).got = e.got ∧ (f e).payload = e.payload)
     (hent : s'.entries = CGV.BatchMux.updIn s.entries hs f)
-    (hun : ∀ h ∈ unsent s', h ∈ unsent s) (hb : s'.built = s.built) (ht : ∀ sl ∈ s'.table, sl ∈ s.table) (hid : s'.idAlloc = s.idAlloc)
+    (hun : ∀ h ∈ unsent s', h ∈ unsent s) (hb : s'.built = s.built) (hq : s'.breqs = s.breqs) (ht : ∀ sl ∈ s'.table, sl ∈ s.table) (hid : s'.idAlloc = s.idAlloc)
     (hr : s'.respLog = s.respLog) (hw : s'.wireLog = s.wireLog) : InvB s' := by
   refine hB.neutral (fun i e => if hs.contains i then f e else e) ?_ ?_ hun
     (by rw [hb]; exact hB.item_pos) (by rw [hb]; exact hB.item_new) ht
     (by rw [hid]; exact Nat.le_refl _) (by rw [hr]; exact fun _ h => h) hw
+    (by rw [hb]; exact hB.item_req) (by rw [hb, hq]; exact hB.paired)
   · intro i; rw [hent, getElem?_updIn]
   · intro i e; split
     · exact hf e
@@ -126,7 +139,15 @@ theorem InvB.submit {s : State} (hB : InvB s) (hA : InvA s) (p pri fwd : Nat) : 
       (∀ h ∈ ch' ++ s.heap ++ s.built.map (·.h), h ∈ unsent s ∨ h = s.entries.length) →
       InvB { s with entries := s.entries ++ [x], ch := ch' } := by
     intro x ch' hx0 hxg hch
-    refine ⟨?_, hB.item_pos, ?_, ?_, ?_, ?_, ?_, ?_⟩
+    refine ⟨?_, hB.item_pos, ?_, ?_, ?_, ?_, ?_, ?_, ?_, hB.paired⟩
+    rotate_right
+    · intro it hit e he
+      rcases get_snoc he with h1 | ⟨h2, _⟩
+      · exact hB.item_req it hit e h1
+      · have : it.h ∈ unsent s := by
+          simp only [unsent, List.mem_append, List.mem_map]; exact Or.inr ⟨it, hit, rfl⟩
+        have := hlt it.h this
+        omega
     · intro h hh e he
       rcases get_snoc he with h1 | ⟨_, rfl⟩
       · rcases hch h hh with h2 | h2
@@ -187,7 +208,7 @@ theorem InvB.fetch {s : State} (hB : InvB s) (max : Nat) : InvB (fetch s max) :=
     obtain ⟨ch', hp'⟩ := r
     have h1 := fetchLoop_perm _ _ _ _ _ _ _ hr
     have h2 := heapPush_perm (priOf s.entries) s.heap x
-    refine hB.shrink rfl ?_ (fun _ h => h) (fun _ h => h) rfl (fun _ h => h) rfl
+    refine hB.shrink rfl ?_ rfl rfl (fun _ h => h) rfl (fun _ h => h) rfl
     intro h hh
     simp only [unsent, hch, List.mem_append] at hh ⊢
     rcases hh with hh | hh
@@ -203,7 +224,7 @@ theorem InvB.fetch {s : State} (hB : InvB s) (max : Nat) : InvB (fetch s max) :=
 theorem InvB.breset {s : State} (hB : InvB s) :
     InvB { s with heap := cleanLoop (priOf s.entries) (isCanceled s.entries) (s.heap.length + 1) 0 s.heap } := by
   obtain ⟨rm, hp, _⟩ := cleanLoop_spec (priOf s.entries) (isCanceled s.entries) (s.heap.length + 1) 0 s.heap
-  refine hB.shrink rfl ?_ (fun _ h => h) (fun _ h => h) rfl (fun _ h => h) rfl
+  refine hB.shrink rfl ?_ rfl rfl (fun _ h => h) rfl (fun _ h => h) rfl
   intro h hh
   simp only [unsent, List.mem_append] at hh ⊢
   rcases hh with (hh | hh) | hh
@@ -213,11 +234,11 @@ theorem InvB.breset {s : State} (hB : InvB s) :
 
 theorem InvB.failSlots {s : State} (hB : InvB s) (cid : Nat) (dead : Slot → Bool) (err : Err) :
     InvB (failSlots s cid dead err) :=
-  hB.updIn _ _ (fun e => fail_neutral e err) rfl (fun _ h => h) rfl (fun sl h => (List.mem_filter.mp h).1) rfl rfl rfl
+  hB.updIn _ _ (fun e => fail_neutral e err) rfl (fun _ h => h) rfl rfl (fun sl h => (List.mem_filter.mp h).1) rfl rfl rfl
 
 theorem InvB.noconn {s : State} (hB : InvB s) (idx : Nat) :
     InvB { s with index := idx, entries := CGV.BatchMux.updIn s.entries s.heap (·.fail .noconn), heap := [] } := by
-  refine hB.updIn _ _ (fun e => fail_neutral e _) rfl ?_ rfl (fun _ h => h) rfl rfl rfl
+  refine hB.updIn _ _ (fun e => fail_neutral e _) rfl ?_ rfl rfl (fun _ h => h) rfl rfl rfl
   intro h hh
   simp only [unsent, List.mem_append, List.not_mem_nil, or_false] at hh ⊢
   rcases hh with hh | hh
@@ -225,8 +246,10 @@ theorem InvB.noconn {s : State} (hB : InvB s) (idx : Nat) :
   · exact Or.inr hh
 
 theorem InvB.build {s : State} (hB : InvB s) (hb : s.built = []) (idx limit fuel : Nat) (hp : List Nat) (bst : BuildSt)
+    (sd : Option Nat)
     (h : buildLoop s.entries limit fuel s.heap { idAlloc := s.idAlloc, count := 0, items := [] } = (hp, bst)) :
     InvB { s with index := idx, heap := hp, idAlloc := bst.idAlloc, built := bst.items.reverse,
+                  breqs := bst.items.reverse.map (·.req), sending := sd,
                   allocLog := bst.items.map (fun it => (it.id, it.h)) ++ s.allocLog } := by
   obtain ⟨tk, hperm, hrel⟩ := buildLoop_rel _ _ _ _ _ _ _ h
   have hmem : ∀ it ∈ bst.items, it.h ∈ tk ∧ s.idAlloc < it.id := by
@@ -235,7 +258,14 @@ theorem InvB.build {s : State} (hB : InvB s) (hb : s.built = []) (idx limit fuel
     · simp at h
     · exact ⟨h.1, h.2.1⟩
   refine hB.neutral (fun _ e => e) (by intro i; simp) (fun _ _ => ⟨rfl, rfl, rfl⟩) ?_ ?_ ?_ (fun _ h => h) hrel.le
-    (fun _ h => h) rfl
+    (fun _ h => h) rfl ?_ rfl
+  rotate_right
+  · intro it hit e he
+    rcases hrel.mem it (by simpa using hit) with h | h
+    · simp at h
+    · obtain ⟨_, _, _, e', he', _, _, hr⟩ := h
+      rw [he] at he'; injection he' with he'; subst he'
+      exact hr.symm
   · intro h hh
     simp only [unsent, hb, List.mem_append, List.map_nil, List.not_mem_nil, or_false, List.map_reverse,
       List.mem_reverse, List.mem_map] at hh ⊢
@@ -278,6 +308,20 @@ theorem built_facts {s : State} (hA : InvA s) :
     exact h1.2.2 it.h (List.mem_append.mpr (Or.inr (List.mem_map.mpr ⟨it, hit, rfl⟩))) sl.h
       (List.mem_map.mpr ⟨sl, hsl, rfl⟩) heq.symm
 
+theorem zip_filter_snd (p : Item → Bool) : ∀ (l : List Item),
+    ((l.zip (l.map (·.req))).filter (fun x => p x.1)).map (·.2) = (l.filter p).map (·.req)
+  | [] => rfl
+  | a :: t => by
+    simp only [List.map_cons, List.zip_cons_cons, List.filter_cons]
+    cases p a <;> simp [zip_filter_snd p t]
+
+theorem zip_filter_batch (p : Item → Bool) : ∀ (l : List Item),
+    ((l.zip (l.map (·.req))).filter (fun x => p x.1)).map (fun x => (x.1.id, x.2)) = (l.filter p).map (fun it => (it.id, it.req))
+  | [] => rfl
+  | a :: t => by
+    simp only [List.map_cons, List.zip_cons_cons, List.filter_cons]
+    cases p a <;> simp [zip_filter_batch p t]
+
 theorem InvB.track {s : State} (hB : InvB s) (hA : InvA s) (cid fwd gen : Nat) : InvB (track s cid fwd gen) := by
   obtain ⟨hnh, hnid, hnq, hnt⟩ := built_facts hA
   -- the update function and what it does
@@ -319,7 +363,19 @@ theorem InvB.track {s : State} (hB : InvB s) (hA : InvA s) (cid fwd gen : Nat) :
     refine hB.unsent0 i ?_ e he
     simp only [unsent, List.mem_append, List.mem_map]
     exact Or.inr ⟨it, h1, h3⟩
-  refine ⟨?_, ?_, ?_, ?_, ?_, ?_, ?_, ?_⟩
+  refine ⟨?_, ?_, ?_, ?_, ?_, ?_, ?_, ?_, ?_, ?_⟩
+  rotate_right 2
+  · -- item_req
+    intro it2 hit2 e' he'
+    obtain ⟨h6, _⟩ := List.mem_filter.mp hit2
+    obtain ⟨e, he, hc⟩ := hget it2.h e' he'
+    rcases hc with ⟨_, rfl⟩ | ⟨it, hf, rfl⟩
+    · exact hB.item_req it2 h6 e he
+    · exact hB.item_req it2 h6 e he
+  · -- paired
+    show ((s.built.zip s.breqs).filter (fun x => decide (¬ x.1.fwd = fwd))).map (·.2) = (s.built.filter (fun it => decide (¬ it.fwd = fwd))).map (·.req)
+    rw [hB.paired]
+    exact zip_filter_snd (fun it => decide (¬ it.fwd = fwd)) s.built
   · -- unsent0
     intro h hh e' he'
     obtain ⟨e, he, hc⟩ := hget h e' he'
@@ -418,29 +474,44 @@ theorem InvB.track {s : State} (hB : InvB s) (hA : InvA s) (cid fwd gen : Nat) :
       have := hzero h it e hf he
       omega
 
-theorem InvB.wire {s2 : State} (hB : InvB s2) (hA : InvA s2) (its : List Item) (cid fwd gen : Nat)
-    (hsl : ∀ it ∈ its, ({ cid := cid, id := it.id, h := it.h, fwd := fwd, gen := gen } : Slot) ∈ s2.table) :
-    InvB { s2 with wireLog := (its.map fun it => (it.id, match s2.entries[it.h]? with | some e => e.payload | none => 0)).reverse ++ s2.wireLog } := by
-  refine ⟨hB.unsent0, hB.item_pos, hB.item_new, hB.slot_req, hB.req_le, hB.req_inj, hB.got_ok, ?_⟩
+theorem track_payload (s : State) (cid fwd gen i : Nat) (e' : Entry)
+    (h : (CGV.BatchMux.track s cid fwd gen).entries[i]? = some e') : ∃ e, s.entries[i]? = some e ∧ e'.payload = e.payload := by
+  have h' : (s.entries.mapIdx (fun i e => match (s.built.filter (·.fwd = fwd)).find? (·.h = i) with
+      | some it => { e with reqId := it.id } | none => e))[i]? = some e' := h
+  rw [List.getElem?_mapIdx] at h'
+  cases hh : s.entries[i]? with
+  | none => simp [hh] at h'
+  | some e =>
+    simp only [hh, Option.map_some, Option.some.injEq] at h'
+    refine ⟨e, rfl, ?_⟩
+    subst h'
+    split <;> rfl
+
+/-- handing a batch to `Send`: every (id, request) pair of the batch is an id registered in the table together with the
+    request of that id's entry -/
+theorem InvB.wire {s2 : State} (hB : InvB s2) (hA : InvA s2) (batch : List (Nat × Nat)) (cid fwd gen : Nat)
+    (hb : ∀ x ∈ batch, ∃ it : Item, ({ cid := cid, id := it.id, h := it.h, fwd := fwd, gen := gen } : Slot) ∈ s2.table ∧
+        x = (it.id, it.req) ∧ ∀ e, s2.entries[it.h]? = some e → e.payload = it.req) :
+    InvB { s2 with wireLog := batch.reverse ++ s2.wireLog } := by
+  refine ⟨hB.unsent0, hB.item_pos, hB.item_new, hB.slot_req, hB.req_le, hB.req_inj, hB.got_ok, ?_, hB.item_req, hB.paired⟩
   intro id q hq
-  have hq' : (id, q) ∈ (its.map fun it => (it.id, match s2.entries[it.h]? with | some e => e.payload | none => 0)).reverse ++ s2.wireLog := hq
+  have hq' : (id, q) ∈ batch.reverse ++ s2.wireLog := hq
   rcases List.mem_append.mp hq' with h | h
-  · obtain ⟨it, hit, heq⟩ := List.mem_map.mp (List.mem_reverse.mp h)
-    have hs := hsl it hit
+  · obtain ⟨it, hs, heq, hpay⟩ := hb _ (List.mem_reverse.mp h)
     obtain ⟨hpos, hreq⟩ := hB.slot_req _ hs
     have hloc : it.h ∈ locs s2 := by
       simp only [locs, List.mem_append, List.mem_map]; exact Or.inr ⟨_, hs, rfl⟩
     obtain ⟨e, he, _⟩ := hA.fresh it.h hloc
-    simp only [he, Prod.mk.injEq] at heq
+    simp only [Prod.mk.injEq] at heq
     obtain ⟨rfl, rfl⟩ := heq
-    exact ⟨hpos, it.h, e, he, hreq e he, rfl⟩
+    exact ⟨hpos, it.h, e, he, hreq e he, hpay e he⟩
   · exact hB.wire_ok id q h
 
 theorem InvB.ensureStream {s : State} (hB : InvB s) (cid fwd : Nat) : InvB (ensureStream s cid fwd) := by
   unfold CGV.BatchMux.ensureStream
   split
   · exact hB
-  · exact hB.shrink rfl (fun _ h => h) (fun _ h => h) (fun _ h => h) rfl (fun _ h => h) rfl
+  · exact hB.shrink rfl (fun _ h => h) rfl rfl (fun _ h => h) rfl (fun _ h => h) rfl
 
 theorem InvB.sendGroup {s : State} (hB : InvB s) (hA : InvA s) (cid fwd : Nat) : InvB (sendGroup s cid fwd) := by
   have hbE : (CGV.BatchMux.ensureStream s cid fwd).built = s.built := ensureStream_built s cid fwd
@@ -459,13 +530,28 @@ theorem InvB.sendGroup {s : State} (hB : InvB s) (hA : InvA s) (cid fwd : Nat) :
       show _ ∈ (CGV.BatchMux.ensureStream s cid fwd).table ++ ((CGV.BatchMux.ensureStream s cid fwd).built.filter (·.fwd = fwd)).map _
       rw [hbE]
       exact List.mem_append.mpr (Or.inr (List.mem_map.mpr ⟨it, hit, rfl⟩))
+    have hbatch : ∀ gen, ∀ x ∈ ((s.built.zip s.breqs).filter (fun x => decide (x.1.fwd = fwd))).map (fun x => (x.1.id, x.2)),
+        ∃ it : Item, ({ cid := cid, id := it.id, h := it.h, fwd := fwd, gen := gen } : Slot) ∈
+            (CGV.BatchMux.track (CGV.BatchMux.ensureStream s cid fwd) cid fwd gen).table ∧
+          x = (it.id, it.req) ∧
+          ∀ e, (CGV.BatchMux.track (CGV.BatchMux.ensureStream s cid fwd) cid fwd gen).entries[it.h]? = some e → e.payload = it.req := by
+      intro gen x hx
+      rw [hB.paired, zip_filter_batch (fun it => decide (it.fwd = fwd)) s.built] at hx
+      obtain ⟨it, hit, rfl⟩ := List.mem_map.mp hx
+      refine ⟨it, hsl gen it hit, rfl, ?_⟩
+      intro e' he'
+      obtain ⟨e, he, hp⟩ := track_payload _ _ _ _ _ _ he'
+      have hentE : (CGV.BatchMux.ensureStream s cid fwd).entries = s.entries := by
+        unfold CGV.BatchMux.ensureStream; split <;> rfl
+      rw [hentE] at he
+      rw [hp]; exact hB.item_req it (List.mem_filter.mp hit).1 e he
     generalize findStream (CGV.BatchMux.ensureStream s cid fwd).streams cid fwd = st
     cases st <;> simp only <;> split
     · exact (hT _).failSlots _ _ _
-    · exact (hT 0).wire (hAT 0) _ cid fwd 0 (hsl 0)
+    · exact (hT 0).wire (hAT 0) _ cid fwd 0 (hbatch 0)
     · exact (hT _).failSlots _ _ _
     · rename_i x _
-      exact (hT x.gen).wire (hAT x.gen) _ cid fwd x.gen (hsl x.gen)
+      exact (hT x.gen).wire (hAT x.gen) _ cid fwd x.gen (hbatch x.gen)
 
 theorem InvAB.sendAll {s : State} (hA : InvA s) (hB : InvB s) (cid : Nat) : ∀ k, InvA (sendAll s cid k) ∧ InvB (sendAll s cid k)
   | 0 => ⟨hA.sendGroup cid 0, hB.sendGroup hA cid 0⟩
@@ -473,25 +559,46 @@ theorem InvAB.sendAll {s : State} (hA : InvA s) (hB : InvB s) (cid : Nat) : ∀ 
     obtain ⟨h1, h2⟩ := InvAB.sendAll hA hB cid k
     exact ⟨h1.sendGroup cid (k + 1), h2.sendGroup h1 cid (k + 1)⟩
 
-theorem InvB.flush {s : State} (hB : InvB s) (hF : InvF s) : InvB (flush s) := by
+theorem InvB.flushBegin {s : State} (hB : InvB s) (hF : InvF s) : InvB (flushBegin s) := by
   obtain ⟨hA, hb⟩ := hF
-  unfold CGV.BatchMux.flush
-  simp only
-  generalize chooseClient s.clients _ s.clients.length s.index = pk
-  obtain ⟨idx, pick⟩ := pk
-  simp only
-  cases pick with
-  | none =>
+  unfold CGV.BatchMux.flushBegin
+  split
+  · exact hB
+  · rename_i hsd
+    have hnone : s.sending = none := by
+      cases h : s.sending with
+      | none => rfl
+      | some x => simp [h] at hsd
+    have hb0 := hb hnone
     simp only
-    split
-    · exact hB.noconn idx
-    · exact hB.shrink rfl (fun _ h => h) (fun _ h => h) (fun _ h => h) rfl (fun _ h => h) rfl
-  | some cid =>
+    generalize chooseClient s.clients _ s.clients.length s.index = pk
+    obtain ⟨idx, pick⟩ := pk
     simp only
-    generalize hbl : buildLoop s.entries _ (s.heap.length + 1) s.heap { idAlloc := s.idAlloc, count := 0, items := [] } = r
-    obtain ⟨hp, bst⟩ := r
-    simp only
-    exact (InvAB.sendAll (hA.build hb idx _ _ hp bst hbl) (hB.build hb idx _ _ hp bst hbl) cid s.nfwd).2
+    cases pick with
+    | none =>
+      simp only
+      split
+      · exact hB.noconn idx
+      · exact hB.shrink rfl (fun _ h => h) rfl rfl (fun _ h => h) rfl (fun _ h => h) rfl
+    | some cid =>
+      simp only
+      generalize hbl : buildLoop s.entries _ (s.heap.length + 1) s.heap { idAlloc := s.idAlloc, count := 0, items := [] } = r
+      obtain ⟨hp, bst⟩ := r
+      simp only
+      exact hB.build hb0 idx _ _ hp bst _ hbl
+
+theorem InvB.setSending {s : State} (hB : InvB s) (c : Option Nat) : InvB { s with sending := c } :=
+  ⟨hB.unsent0, hB.item_pos, hB.item_new, hB.slot_req, hB.req_le, hB.req_inj, hB.got_ok, hB.wire_ok, hB.item_req, hB.paired⟩
+
+theorem InvB.flushEnd {s : State} (hB : InvB s) (hF : InvF s) : InvB (flushEnd s) := by
+  unfold CGV.BatchMux.flushEnd
+  split
+  · exact hB
+  · rename_i cid _
+    exact ((InvAB.sendAll hF.1 hB cid s.nfwd).2).setSending none
+
+theorem InvB.flush {s : State} (hB : InvB s) (hF : InvF s) : InvB (flush s) :=
+  (hB.flushBegin hF).flushEnd hF.flushBegin
 
 theorem respond_fields (e : Entry) (id p : Nat) :
     (e.respond id p).reqId = e.reqId ∧ (e.respond id p).payload = e.payload ∧
@@ -504,7 +611,7 @@ theorem InvB.recv1 {s : State} (hB : InvB s) (cid : Nat) (r : Nat × Nat) : InvB
   unfold CGV.BatchMux.recv1
   simp only
   split
-  · exact hB.shrink rfl (fun _ h => h) (fun _ h => h) (fun _ h => h) rfl (fun _ h => List.mem_cons_of_mem _ h) rfl
+  · exact hB.shrink rfl (fun _ h => h) rfl rfl (fun _ h => h) rfl (fun _ h => List.mem_cons_of_mem _ h) rfl
   · rename_i sl hfind
     obtain ⟨hm, _, hid⟩ := findSlot_spec hfind
     obtain ⟨hpos, hreq⟩ := hB.slot_req sl hm
@@ -529,7 +636,11 @@ theorem InvB.recv1 {s : State} (hB : InvB s) (cid : Nat) (r : Nat × Nat) : InvB
           · simp only [hi, if_false] at h
             subst h
             exact ⟨rfl, rfl, Or.inl rfl⟩
-    refine ⟨?_, hB.item_pos, ?_, ?_, ?_, ?_, ?_, ?_⟩
+    refine ⟨?_, hB.item_pos, ?_, ?_, ?_, ?_, ?_, ?_, ?_, hB.paired⟩
+    rotate_right
+    · intro it hit e' he'
+      obtain ⟨e, he, _, h2, _⟩ := hget it.h e' he'
+      rw [h2]; exact hB.item_req it hit e he
     · intro h hh e' he'
       obtain ⟨e, he, h1, _, _⟩ := hget h e' he'
       rw [h1]; exact hB.unsent0 h hh e he
@@ -584,8 +695,8 @@ theorem InvB.kill {s : State} (hB : InvB s) (cid fwd : Nat) : InvB (kill s cid f
   · split
     · exact hB
     · split
-      · exact (hB.failSlots cid (fun sl => sl.fwd = fwd) .stream).shrink rfl (fun _ h => h) (fun _ h => h) (fun _ h => h) rfl (fun _ h => h) rfl
-      · exact hB.shrink rfl (fun _ h => h) (fun _ h => h) (fun _ h => h) rfl (fun _ h => h) rfl
+      · exact (hB.failSlots cid (fun sl => sl.fwd = fwd) .stream).shrink rfl (fun _ h => h) rfl rfl (fun _ h => h) rfl (fun _ h => h) rfl
+      · exact hB.shrink rfl (fun _ h => h) rfl rfl (fun _ h => h) rfl (fun _ h => h) rfl
 
 theorem InvB.step {s : State} (hB : InvB s) (hF : InvF s) (op : Op) : InvB (step s op) := by
   cases op with
@@ -593,6 +704,8 @@ theorem InvB.step {s : State} (hB : InvB s) (hF : InvF s) (op : Op) : InvB (step
   | fetch max => exact hB.fetch max
   | breset => exact hB.breset
   | flush => exact hB.flush hF
+  | flushBegin => exact hB.flushBegin hF
+  | flushEnd => exact hB.flushEnd hF
   | recv cid fwd rs =>
     show InvB (CGV.BatchMux.recv s cid fwd rs)
     unfold CGV.BatchMux.recv
@@ -602,23 +715,23 @@ theorem InvB.step {s : State} (hB : InvB s) (hF : InvF s) (op : Op) : InvB (step
       · exact hB
       · exact InvB.recvFold cid rs hB
   | kill cid fwd => exact hB.kill cid fwd
-  | cancel h => exact hB.updAt h _ (fun e => abandon_neutral e _) rfl rfl rfl rfl rfl rfl rfl
-  | timeout h => exact hB.updAt h _ (fun e => abandon_neutral e _) rfl rfl rfl rfl rfl rfl rfl
-  | wake h => exact hB.updAt h _ wake_neutral rfl rfl rfl rfl rfl rfl rfl
+  | cancel h => exact hB.updAt h _ (fun e => abandon_neutral e _) rfl rfl rfl rfl rfl rfl rfl rfl
+  | timeout h => exact hB.updAt h _ (fun e => abandon_neutral e _) rfl rfl rfl rfl rfl rfl rfl rfl
+  | wake h => exact hB.updAt h _ wake_neutral rfl rfl rfl rfl rfl rfl rfl rfl
   | close =>
     refine hB.neutral (fun _ e => e.abandon .closed) ?_ (fun _ e => abandon_neutral e _) (fun _ h => h) hB.item_pos hB.item_new
-      (fun _ h => h) (Nat.le_refl _) (fun _ h => h) rfl
+      (fun _ h => h) (Nat.le_refl _) (fun _ h => h) rfl hB.item_req hB.paired
     intro i
     show (s.entries.mapIdx _)[i]? = _
     rw [List.getElem?_mapIdx]
-  | sendfail cid fwd b => exact hB.shrink rfl (fun _ h => h) (fun _ h => h) (fun _ h => h) rfl (fun _ h => h) rfl
-  | lockrec cid b => exact hB.shrink rfl (fun _ h => h) (fun _ h => h) (fun _ h => h) rfl (fun _ h => h) rfl
-  | setlimit cid l => exact hB.shrink rfl (fun _ h => h) (fun _ h => h) (fun _ h => h) rfl (fun _ h => h) rfl
-  | cfgcancel b => exact hB.shrink rfl (fun _ h => h) (fun _ h => h) (fun _ h => h) rfl (fun _ h => h) rfl
+  | sendfail cid fwd b => exact hB.shrink rfl (fun _ h => h) rfl rfl (fun _ h => h) rfl (fun _ h => h) rfl
+  | lockrec cid b => exact hB.shrink rfl (fun _ h => h) rfl rfl (fun _ h => h) rfl (fun _ h => h) rfl
+  | setlimit cid l => exact hB.shrink rfl (fun _ h => h) rfl rfl (fun _ h => h) rfl (fun _ h => h) rfl
+  | cfgcancel b => exact hB.shrink rfl (fun _ h => h) rfl rfl (fun _ h => h) rfl (fun _ h => h) rfl
   | panicRecover => exact hB
 
 theorem InvB.init (n limit nfwd : Nat) : InvB (init n limit nfwd) := by
-  refine ⟨?_, ?_, ?_, ?_, ?_, ?_, ?_, ?_⟩ <;> simp [CGV.BatchMux.init, unsent]
+  refine ⟨?_, ?_, ?_, ?_, ?_, ?_, ?_, ?_, ?_, ?_⟩ <;> simp [CGV.BatchMux.init, unsent]
 
 theorem findSlot_filter_none (t : List Slot) (cid id : Nat) :
     findSlot (t.filter (fun x => ¬(x.cid = cid ∧ x.id = id))) cid id = none := by
@@ -654,6 +767,23 @@ theorem sendAll_nfwd (s : State) (cid : Nat) : ∀ k, (sendAll s cid k).nfwd = s
   | 0 => sendGroup_nfwd s cid 0
   | k + 1 => (sendGroup_nfwd _ cid (k + 1)).trans (sendAll_nfwd s cid k)
 
+theorem flushBegin_nfwd (s : State) : (flushBegin s).nfwd = s.nfwd := by
+  unfold CGV.BatchMux.flushBegin
+  split
+  · rfl
+  simp only
+  generalize chooseClient s.clients _ s.clients.length s.index = pk
+  obtain ⟨idx, pick⟩ := pk
+  cases pick with
+  | none => simp only; split <;> rfl
+  | some cid => simp only
+
+theorem flushEnd_nfwd (s : State) : (flushEnd s).nfwd = s.nfwd := by
+  unfold CGV.BatchMux.flushEnd
+  split
+  · rfl
+  · exact sendAll_nfwd s _ s.nfwd
+
 theorem step_nfwd (s : State) (op : Op) : (step s op).nfwd = s.nfwd := by
   cases op with
   | submit p pri fwd =>
@@ -662,20 +792,9 @@ theorem step_nfwd (s : State) (op : Op) : (step s op).nfwd = s.nfwd := by
   | fetch max =>
     show (CGV.BatchMux.fetch s max).nfwd = _
     unfold CGV.BatchMux.fetch; split <;> rfl
-  | flush =>
-    show (CGV.BatchMux.flush s).nfwd = _
-    unfold CGV.BatchMux.flush
-    simp only
-    generalize chooseClient s.clients _ s.clients.length s.index = pk
-    obtain ⟨idx, pick⟩ := pk
-    cases pick with
-    | none => simp only; split <;> rfl
-    | some cid =>
-      simp only
-      generalize buildLoop s.entries _ (s.heap.length + 1) s.heap { idAlloc := s.idAlloc, count := 0, items := [] } = r
-      obtain ⟨hp, bst⟩ := r
-      simp only
-      rw [sendAll_nfwd]
+  | flush => exact (flushEnd_nfwd _).trans (flushBegin_nfwd s)
+  | flushBegin => exact flushBegin_nfwd s
+  | flushEnd => exact flushEnd_nfwd s
   | recv cid fwd rs =>
     show (CGV.BatchMux.recv s cid fwd rs).nfwd = _
     unfold CGV.BatchMux.recv
